@@ -596,10 +596,15 @@ ReloadStep(S, a) ==
 \* ---------------------------------------------------------------- session disconnect: detach from everything
 DisconnectStep(S, a) ==
   LET s == a.s
-      DetachAll[ts \in SUBSET GrpTopics] == IF ts = {} THEN S
+      DetachAll[ts \in SUBSET Topics] == IF ts = {} THEN S
                                          ELSE LET t == CHOOSE x \in ts : TRUE IN Detach(DetachAll[ts \ {t}], t, s)
-      S1 == DetachAll[M(S.sess[s].subs) \cap GrpTopics]
-  IN Reply([S1 EXCEPT !.sess[s] = [live |-> FALSE, subs |-> <<>>]], 0)
+      S1 == DetachAll[M(S.sess[s].subs) \cap Topics]
+  IN IF ~S.sess[s].live THEN Reply(S, 0)
+     ELSE Reply([S1 EXCEPT !.sess[s] = [live |-> FALSE, subs |-> <<>>]], 0)
+
+\* a new connection under the same abstract session name, logged in as the same user
+ConnectStep(S, a) ==
+  IF S.sess[a.s].live THEN Reply(S, 0) ELSE Reply([S EXCEPT !.sess[a.s] = [live |-> TRUE, subs |-> <<>>]], 0)
 
 \* ---------------------------------------------------------------- observation requests: no state change
 GetStep(S, a) == Reply(S, -2)     \* -2: the reply of an observation request is not predicted (its content is judged by the monitors)
@@ -611,8 +616,10 @@ Unmodelled(a) == ("obo" \in DOMAIN a /\ a.obo # "") \/ ("t" \in DOMAIN a /\ a.t 
 \* Step stays total: such a step is not predicted (the monitors still judge it)
 Inconsistent(S, a) == "t" \in DOMAIN a /\ a.t \in Topics /\ ~S.cache[a.t].loaded
                       /\ \E x \in Sessions : a.t \in M(S.sess[x].subs)
+DeadSession(S, a) == "s" \in DOMAIN a /\ a.s \in Sessions /\ ~S.sess[a.s].live /\ a.a # "Connect"
 Step(S, a) ==
-  CASE Unmodelled(a) \/ Inconsistent(S, a) -> Reply(S, -1)
+  CASE DeadSession(S, a) -> Reply(S, 0)              \* the harness does not send requests on a closed connection
+    [] Unmodelled(a) \/ Inconsistent(S, a) -> Reply(S, -1)
     [] a.a = "NewGrp"     -> NewGrpStep(S, a)
     [] a.a = "Sub"        -> SubStep(S, a)
     [] a.a = "Leave"      -> LeaveStep(S, a)
@@ -627,8 +634,9 @@ Step(S, a) ==
     [] a.a = "Unload"     -> UnloadStep(S, a)
     [] a.a = "Reload"     -> ReloadStep(S, a)
     [] a.a = "Disconnect" -> DisconnectStep(S, a)
+    [] a.a = "Connect"    -> ConnectStep(S, a)
     [] a.a = "Get"        -> GetStep(S, a)
     [] OTHER              -> Reply(S, 0)
 
-Modelled(a) == ~Unmodelled(a) /\ a.a \in {"Reload", "DelMsg", "DelTopic", "SetDesc", "NewGrp", "Sub", "Leave", "SetSelf", "SetOther", "DelSub", "Pub", "Note", "Unload", "Disconnect", "Get"}
+Modelled(a) == ~Unmodelled(a) /\ a.a \in {"Connect", "Reload", "DelMsg", "DelTopic", "SetDesc", "NewGrp", "Sub", "Leave", "SetSelf", "SetOther", "DelSub", "Pub", "Note", "Unload", "Disconnect", "Get"}
 =============================================================================
